@@ -7,6 +7,7 @@ package otter
 import (
 	"bufio"
 	"encoding/json"
+	"math"
 	"math/rand"
 	"os"
 	"strconv"
@@ -53,18 +54,41 @@ func TestVerifSketch(t *testing.T) {
 	enc := json.NewEncoder(w)
 	rng := rand.New(rand.NewSource(seed))
 	caps := []int64{1, 2, 3, 5, 7, 8, 9, 13, 16, 17, 31, 33, 64, 70, 100, 1000, 4097}
-	const nkeys = 12
 	for run := 0; run < nruns; run++ {
-		s := newSketch[int]()
+		switch {
+		case run%6 == 4: // floating-point keys with both spellings of zero
+			sketchRun[float64](enc, rng, run, nops, caps, func(i int) float64 {
+				if i == 0 {
+					if rng.Intn(2) == 0 {
+						return math.Copysign(0, -1)
+					}
+					return 0
+				}
+				return float64(i) + 0.5
+			})
+		case run%6 == 5: // string keys built afresh for every call (equal contents, different backing arrays)
+			sketchRun[string](enc, rng, run, nops, caps, func(i int) string { return string(append([]byte("key-"), byte('a'+i))) })
+		default:
+			sketchRun[int](enc, rng, run, nops, caps, func(i int) int { return i })
+		}
+	}
+}
+
+// sketchRun: one run of the driver for key type K.  The driver thinks in key indices 0..nkeys-1; key(i) spells the key (for
+// floating-point keys index 0 is zero, spelled +0 or -0 at random: the two compare equal, they are one key).
+func sketchRun[K comparable](enc *json.Encoder, rng *rand.Rand, run, nops int, caps []int64, key func(i int) K) {
+	const nkeys = 12
+	{
+		s := newSketch[K]()
 		ests := func() []int {
 			e := make([]int, nkeys)
 			for k := 0; k < nkeys; k++ {
-				e[k] = int(s.frequency(k))
+				e[k] = int(s.frequency(key(k)))
 			}
 			return e
 		}
 		_ = enc.Encode(skRec{Tp: "reset", Est: ests()})
-		p := newPolicy[int, int](false)
+		p := newPolicy[K, int](false)
 		p.sketch = s
 		// a hot subset so that estimates saturate, a cold tail so that collisions matter
 		// every fourth run is sparse: a tiny table and (almost) a single key, so that whole table words hold nothing but
@@ -97,8 +121,8 @@ func TestVerifSketch(t *testing.T) {
 				}
 				p.rand = func() uint32 { return r }
 				rec.Tp, rec.K = "admit", ck
-				rec.FC, rec.FV, rec.R = int(s.frequency(ck)), int(s.frequency(vk)), int64(r)
-				if p.admit(ck, vk) {
+				rec.FC, rec.FV, rec.R = int(s.frequency(key(ck))), int(s.frequency(key(vk))), int64(r)
+				if p.admit(key(ck), key(vk)) {
 					rec.Admit = 1
 				}
 			default:
@@ -110,7 +134,7 @@ func TestVerifSketch(t *testing.T) {
 					k = main
 				}
 				before := s.size
-				s.increment(k)
+				s.increment(key(k))
 				rec.Tp, rec.K = "inc", k
 				if s.size < before {
 					rec.Aged = 1
